@@ -58,7 +58,7 @@ def spec_dir(ctx, name):
 
 
 _STATS = re.compile(r"^(\d+) states generated, (\d+) distinct states found")
-_OUT = re.compile(r'^<<"([A-Z]+)", (.*)>>$')
+_OUT = re.compile(r'^<<\s*"([A-Z]+)",\s*(.*?)\s*>>$')
 
 
 def tlc(ctx, module, cfg, workers=None, timeout=900, heap="4g", simulate=None, depth=None, seed=None,
@@ -88,8 +88,19 @@ def tlc(ctx, module, cfg, workers=None, timeout=900, heap="4g", simulate=None, d
     st = dict(module=module, generated=0, distinct=0, wall_s=0.0, rc=rc, tag=tag or module)
     errors = []
     with open(outp, errors="replace") as f:
+        pending = None
         for line in f:
             line = line.rstrip("\n")
+            # TLC wraps long values over several lines: glue a tuple that starts with <<"TAG" until its closing >>
+            if pending is not None:
+                pending += " " + line.strip()
+                if line.rstrip().endswith(">>"):
+                    line, pending = pending, None
+                else:
+                    continue
+            elif (line.startswith('<<"') or line.startswith('<< "')) and not line.rstrip().endswith(">>"):
+                pending = line
+                continue
             m = _OUT.match(line)
             if m and m.group(1) in outputs:
                 outputs[m.group(1)].append(m.group(2))
@@ -188,7 +199,7 @@ def harness(ctx, args, cases=None, timeout=1800, race=False, env=None):
 
 
 # ----------------------------------------------------------------------------- judging (trace validation)
-_REJ = re.compile(r'^(\d+), (.*)$')
+_REJ = re.compile(r'^(\d+),\s*(.*)$')
 
 
 def _judge_shard(ctx, module, shard_no, lines, extra_cfg, heap):
@@ -196,9 +207,11 @@ def _judge_shard(ctx, module, shard_no, lines, extra_cfg, heap):
     with open(os.path.join(d, "tr.ndjson"), "w") as f:
         f.write("\n".join(lines) + "\n")
     cfg = "SPECIFICATION TSpec\nPOSTCONDITION Accepted\nCHECK_DEADLOCK FALSE\n" + (extra_cfg or "")
-    out, st = tlc(ctx, module, cfg, workers=1, cwd=d, want=("REJECT", "NOTE"), heap=heap, timeout=3000, tag="judge")
+    out, st = tlc(ctx, module, cfg, workers=1, cwd=d, want=("REJECT", "NOTE", "NREJ"), heap=heap, timeout=3000, tag="judge")
     if st["distinct"] != len(lines) + 1:
         raise Infra("judge %s shard %d consumed %d of %d events" % (module, shard_no, st["distinct"] - 1, len(lines)))
+    if len(out["NREJ"]) != 1 or int(out["NREJ"][0]) != len(out["REJECT"]):
+        raise Infra("judge %s shard %d: TLC counted %s rejected events, %d were parsed" % (module, shard_no, out["NREJ"], len(out["REJECT"])))
     rej = []
     for p in out["REJECT"]:
         m = _REJ.match(p)
